@@ -1,0 +1,94 @@
+//go:build verif
+
+// Contracts for package discovery (comment-only; read by /verif/govc).
+
+package discovery
+
+// ---- server discovery (C18) ---------------------------------------------------------------------
+// The list is a set: what matters is which names are in it and that none is in
+// it twice. in(x, s): exists(j, 0, len(s), s[j] == x).
+
+// Every kept entry is a matching input entry; every matching input entry is kept.
+//@ func (*Discovery).filterList
+//@   requires [has-regex] d.regex != nil
+//@   assigns nothing
+//@   loop 1 invariant [bounds] -1 <= rangeindex && rangeindex < len(servers)
+//@   loop 1 invariant [none-invented] forall(i, 0, len(filtered), exists(j, 0, rangeindex + 1, filtered[i] == servers[j] && matches(d.regex, servers[j])))
+//@   loop 1 invariant [none-lost] forall(j, 0, rangeindex + 1, implies(matches(d.regex, servers[j]), exists(i, 0, len(filtered), filtered[i] == servers[j])))
+//@   ensures [none-invented] forall(i, 0, len(filtered), exists(j, 0, len(servers), filtered[i] == servers[j] && matches(d.regex, servers[j])))
+//@   ensures [none-lost] forall(j, 0, len(servers), implies(matches(d.regex, servers[j]), exists(i, 0, len(filtered), filtered[i] == servers[j])))
+
+// The result has no entry twice, and has exactly the entries of the input.
+//@ func (*Discovery).dedupList
+//@   assigns nothing
+//@   loop 1 invariant [bounds] -1 <= rangeindex && rangeindex < len(servers)
+//@   loop 1 invariant [seen-is-kept] forallStr(x, has(serverMap, x) == exists(i, 0, len(deduped), deduped[i] == x))
+//@   loop 1 invariant [each-once] forall(i, 0, len(deduped), forall(j, 0, i, deduped[i] != deduped[j]))
+//@   loop 1 invariant [none-invented] forall(i, 0, len(deduped), exists(j, 0, rangeindex + 1, deduped[i] == servers[j]))
+//@   loop 1 invariant [none-lost] forall(j, 0, rangeindex + 1, exists(i, 0, len(deduped), deduped[i] == servers[j]))
+//@   ensures [each-once] forall(i, 0, len(deduped), forall(j, 0, i, deduped[i] != deduped[j]))
+//@   ensures [none-invented] forall(i, 0, len(deduped), exists(j, 0, len(servers), deduped[i] == servers[j]))
+//@   ensures [none-lost] forall(j, 0, len(servers), exists(i, 0, len(deduped), deduped[i] == servers[j]))
+
+// Shuffling a list without duplicates gives a list of the same length with the
+// same entries and still no duplicates (a permutation). servers is consumed:
+// entries move from it to shuffled one at a time.
+//@ func (*Discovery).shuffleList
+//@   requires [each-once] forall(i, 0, len(servers), forall(j, 0, i, servers[i] != servers[j]))
+//@   assigns nothing
+//@   loop 1 invariant [bounds] 0 <= i && i <= n && len(servers) == n - i && len(shuffled) == n && n == old(len(servers))
+//@   loop 1 invariant [rest-each-once] forall(a, 0, len(servers), forall(b, 0, a, servers[a] != servers[b]))
+//@   loop 1 invariant [taken-each-once] forall(a, 0, i, forall(b, 0, a, shuffled[a] != shuffled[b]))
+//@   loop 1 invariant [taken-not-in-rest] forall(a, 0, i, forall(b, 0, len(servers), shuffled[a] != servers[b]))
+//@   loop 1 invariant [taken-from-input] forall(a, 0, i, exists(j, 0, n, shuffled[a] == old(servers)[j]))
+//@   loop 1 invariant [rest-from-input] forall(b, 0, len(servers), exists(j, 0, n, servers[b] == old(servers)[j]))
+//@   loop 1 invariant [none-lost] forall(j, 0, n, exists(a, 0, i, shuffled[a] == old(servers)[j]) || exists(b, 0, len(servers), servers[b] == old(servers)[j]))
+//@   ensures [same-length] len(result) == old(len(servers))
+//@   ensures [each-once] forall(a, 0, len(result), forall(b, 0, a, result[a] != result[b]))
+//@   ensures [none-invented] forall(a, 0, len(result), exists(j, 0, old(len(servers)), result[a] == old(servers)[j]))
+//@   ensures [none-lost] forall(j, 0, old(len(servers)), exists(a, 0, len(result), result[a] == old(servers)[j]))
+
+// The whole pipeline. source: what the list source (comma list, file or
+// module) returned. The result holds each entry of source that passes the
+// filter (all of them without a filter) exactly once, and nothing else.
+//@ func (*Discovery).ServerList
+//@   assigns fs
+//@   bind source == serverListFromModule
+//@   ensures [each-once] forall(a, 0, len(result), forall(b, 0, a, result[a] != result[b]))
+//@   ensures [none-invented] forall(a, 0, len(result), exists(j, 0, len(source), result[a] == source[j] && (d.regex == nil || matches(d.regex, source[j]))))
+//@   ensures [none-lost] forall(j, 0, len(source), implies(d.regex == nil || matches(d.regex, source[j]), exists(a, 0, len(result), result[a] == source[j])))
+
+// Which source: a module if one is named, else the file of that name if there
+// is one, else the comma separated list.
+//@ func (*Discovery).serverListFromModule
+//@   assigns fs
+//@   at-call ServerListFromFILE [no-module-and-file-exists] d.module == "" && fsExists(d.server)
+//@   at-call ServerListFromCOMMA [no-module-and-no-file] d.module == "" && !fsExists(d.server)
+//@   at-call serverListFromReflectedModule [module-named] d.module != ""
+
+// The entries of a comma separated list: the comma-free pieces whose
+// concatenation with commas is the list.
+//@ func (*Discovery).ServerListFromCOMMA
+//@   assigns nothing
+//@   ensures [entries-of-the-list] len(result) >= 1 && join(result, ",") == d.server && forall(i, 0, len(result), !contains(result[i], ","))
+
+// The server file is the file named; one entry per line is bufio.Scanner's doing.
+//@ func (*Discovery).ServerListFromFILE
+//@   assigns fs
+//@   at-call os.Open [reads-the-named-file] arg0 == d.server
+
+//@ func (*Discovery).serverListFromReflectedModule
+//@   assigns nothing
+//@   trusted
+
+// A server argument of the form /…/ is a filter, anything else is the list (or
+// file name) itself.
+//@ func New
+//@   assigns nothing
+//@   ensures [list-kept] implies(!(hasPrefix(server, "/") && hasSuffix(server, "/")), result.server == server && result.regex == nil)
+//@   ensures [filter-compiled] implies(hasPrefix(server, "/") && hasSuffix(server, "/"), result.regex != nil && result.server == "")
+//@   ensures [order-kept] result != nil && result.order == order
+
+//@ func (*Discovery).initRegex
+//@   assigns d.regex, d.server
+//@   ensures [filter-set] d.regex != nil && d.server == ""
